@@ -45,4 +45,6 @@ PROPS["C05"] = dict(pkg="chain", level="exploration", stages=[
 
 PROPS["C04"] = dict(pkg="chain", level="exploration", stages=[
     rapid("rapid", "TestC04", dict(shards=16, checks=120), dict(shards=16, checks=4000, timeout=7000)),
+    rapid("concurrent", "TestC04Concurrent", dict(shards=8, checks=60), dict(shards=16, checks=400, timeout=7000)),
+    rapid("concurrent-race", "TestC04Concurrent", dict(shards=8, checks=40), dict(shards=16, checks=150, timeout=7000), race=True, tiers=["thorough"]),
 ])
